@@ -52,7 +52,7 @@ use sciparse::{
         types::{ScmpDestinationUnreachableCode, ScmpParameterProblemCode},
     },
 };
-use snap_dataplane::tunnel_gateway::verif::{IngressVerdict, ingress};
+use snap_dataplane::tunnel_gateway::verif::{IngressVerdict, ingress, ingress_into_recycled};
 use vpc::{
     Run, Tier, Value, catch, hex, json,
     refwire::{self, PROTO_SCMP, PROTO_UDP, RHeader, RHop, RInfo, RPath, RStdPath},
@@ -241,6 +241,23 @@ fn part_a(run: &Run, ev: &vpc::Counters, distinct: &vpc::Distinct) {
                 };
                 if bytes.len() != pkt.required_size() {
                     run.violation("a:required-size-differs-from-bytes-written", &format!("{} vs {}", pkt.required_size(), bytes.len()), witness());
+                }
+                // the encoding must not depend on what the target buffer held before (recycled buffers):
+                // encode into buffers pre-filled with stale bytes and require the same packet
+                for stale in [0xA5u8, 0x5A, 0xFF] {
+                    let mut dirty = vec![stale; pkt.required_size() + 3];
+                    match catch(|| pkt.try_encode(&mut dirty[..])) {
+                        Ok(Ok(n)) => {
+                            if dirty[..n] != bytes[..] {
+                                let pos = dirty[..n].iter().zip(bytes.iter()).position(|(a, b)| a != b).unwrap_or(n.min(bytes.len()));
+                                run.violation("a:encoding-depends-on-previous-buffer-content", &format!("encoding into a buffer filled with {stale:#x} differs from the encoding into a zeroed buffer at byte {pos} (of {n})"), json!({"part": "a", "header": name, "type": ty, "offending_len": l, "stale_fill": stale, "first_differing_byte": pos}));
+                                // judge the dirty encoding as a receiver would
+                                judge_error_packet(run, "a-recycled-buffer", &dirty[..n], &offending, Some(ty), &witness);
+                            }
+                        }
+                        Ok(Err(e)) => run.violation("a:encoder-rejects-into-provided-buffer", &format!("{e:?}"), witness()),
+                        Err(p) => run.violation(&format!("a:encoder-panic@{}", vpc::last_panic_location()), &p, witness()),
+                    }
                 }
                 let h = judge_error_packet(run, "a", &bytes, &offending, Some(ty), &witness);
                 let truncated = h.as_ref().map(|h| (h.payload_len as usize) < _fixed + l).unwrap_or(false);
@@ -489,6 +506,12 @@ fn part_b(run: &Run, ev: &vpc::Counters, distinct: &vpc::Distinct) {
             }
             ev.add("evaluations", 1);
             let witness = || json!({"part": "b-snap", "case": name, "datagram_len": dgram.len(), "datagram_prefix": hex(&dgram[..dgram.len().min(64)])});
+            for stale in [0xA5u8, 0x5A] {
+                ev.add("evaluations", 1);
+                if let Ok(IngressVerdict::ScmpReply(bytes)) = catch(|| ingress_into_recycled(&dgram, peer, local, Some(stale))) {
+                    judge_error_packet(run, "b-snap-recycled-buffer", &bytes, &dgram, Some(4), &witness);
+                }
+            }
             match catch(|| ingress(&dgram, peer, local)) {
                 Err(p) => run.violation(&format!("b:snap-ingress-panic@{}", vpc::last_panic_location()), &p, witness()),
                 Ok(IngressVerdict::Dispatch) => run.violation("b:snap-dispatches-a-packet-built-to-be-rejected", &name, witness()),
